@@ -81,6 +81,8 @@ def parse_path(p):
         seg, qual = m.group('seg'), m.group('qual')
         ele = int(m.group('ele')) if m.group('ele') else None
         sub = int(m.group('sub')) if m.group('sub') else None
+        if ele == 0 or sub == 0:
+            raise BadPath(p)          # elements count from 01, components from 1
         if seg is None and qual is not None:
             raise BadPath(p)
         if seg is None and (ele is not None or sub is not None) and loops:
@@ -178,28 +180,27 @@ def _select(cur, loops, seg, qual):
 
 
 def first_segment(node, path):
-    """first matching *segment* (get/set semantics: at each loop level only the first loop with that id is entered)"""
+    """first matching *segment* in document order, over every instance of the loops named (what first() and select() see)"""
     ups, loops, seg, qual, ele, sub = parse_path(path)
     cur = start_node(node, ups)
     if seg is None:
         return None, ele, sub
-    for lid in loops:
-        nxt = None
+
+    def descend(cur, lids):
         if cur.kind != 'loop':
-            return None, ele, sub
+            return None
+        if not lids:
+            for c in cur.children:
+                if c.kind == 'seg' and seg_matches(c, seg, qual):
+                    return c
+            return None
         for c in cur.children:
-            if c.kind == 'loop' and c.id == lid:
-                nxt = c
-                break
-        if nxt is None:
-            return None, ele, sub
-        cur = nxt
-    if cur.kind != 'loop':
-        return None, ele, sub
-    for c in cur.children:
-        if c.kind == 'seg' and seg_matches(c, seg, qual):
-            return c, ele, sub
-    return None, ele, sub
+            if c.kind == 'loop' and c.id == lids[0]:
+                hit = descend(c, lids[1:])
+                if hit is not None:
+                    return hit
+        return None
+    return descend(cur, loops), ele, sub
 
 
 def set_value(mseg, ele, sub, val):
